@@ -6,21 +6,24 @@ import (
 	"strings"
 )
 
-func parseArraiStringFragment(s string, validEscapes string, indent string) string {
+func parseArraiStringFragment(s string, validEscapes string, indent string) (string, error) {
 	if strings.HasPrefix(validEscapes, "`") {
-		return strings.ReplaceAll(s, "``", "`")
+		return strings.ReplaceAll(s, "``", "`"), nil
 	}
 
 	var sb strings.Builder
 
-	number := func(i, size, base, bits int) int {
+	number := func(i, size, base, bits int) (int, error) {
+		if i+size > len(s) {
+			return 0, fmt.Errorf("truncated \\-escape before %q", s[i:])
+		}
 		n, err := strconv.ParseUint(s[i:i+size], base, bits)
 		if err != nil {
-			panic(err)
+			return 0, fmt.Errorf("invalid \\-escape: %v", err)
 		}
 		sb.WriteRune(rune(n))
 		// Return the index of the last digit consumed; the caller's loop advances past it.
-		return i + size - 1
+		return i + size - 1, nil
 	}
 
 	for i := 0; i < len(s); i++ {
@@ -28,15 +31,19 @@ func parseArraiStringFragment(s string, validEscapes string, indent string) stri
 		switch c {
 		case '\\':
 			i++
+			if i == len(s) {
+				return "", fmt.Errorf("truncated \\-escape at the end of %q", s)
+			}
+			var err error
 			switch s[i] {
 			case 'x':
-				i = number(i+1, 2, 16, 8)
+				i, err = number(i+1, 2, 16, 8)
 			case 'u':
-				i = number(i+1, 4, 16, 16)
+				i, err = number(i+1, 4, 16, 16)
 			case 'U':
-				i = number(i+1, 8, 16, 32)
+				i, err = number(i+1, 8, 16, 32)
 			case '0', '1', '2', '3', '4', '5', '6', '7':
-				i = number(i, 3, 8, 8)
+				i, err = number(i, 3, 8, 8)
 			case 'a':
 				sb.WriteByte('\a')
 			case 'b':
@@ -62,19 +69,19 @@ func parseArraiStringFragment(s string, validEscapes string, indent string) stri
 			case 'i':
 				sb.WriteString(indent)
 			default:
-				if strings.ContainsRune(validEscapes, rune(c)) {
-					sb.WriteByte(c)
-				}
-				panic(fmt.Errorf("unrecognized \\-escape: %q", s[i]))
+				return "", fmt.Errorf("unrecognized \\-escape: %q", s[i])
+			}
+			if err != nil {
+				return "", err
 			}
 		default:
 			sb.WriteByte(c)
 		}
 	}
-	return sb.String()
+	return sb.String(), nil
 }
 
-func parseArraiString(s string) string {
+func parseArraiString(s string) (string, error) {
 	quote, s := s[:1], s[1:len(s)-1]
 	return parseArraiStringFragment(s, quote, "")
 }
